@@ -286,6 +286,10 @@ def check_condition(ti, oi, ci, pipe) -> bool:
     return c_part == f"COND<{field}|{OPMAP[op]}|{count}>refs=ra" and a_part.endswith(":pct=" + pct) and ":ts=5m:" in a_part
 
 
+def c10c_concrete(ti: int, oi: int, ci: int, pipe: bool) -> bool:
+    return check_condition(ti, oi, ci, pipe)
+
+
 def c10c_condition(ti: int, oi: int, ci: int, pipe: bool) -> bool:
     """
     pre: 0 <= ti < 8 and 0 <= oi < 6 and 0 <= ci < len(COUNTS)
